@@ -41,6 +41,7 @@ pub fn parallel_walk_dir<
     #[cfg(unix)]
     let num_threads = 1;
 
+    #[cfg(rjrssync_verif)] let num_threads = verif_hooks::num_threads_override(num_threads);
     // Spawn worker threads
     for i in 0..num_threads {
         let job_sender = job_sender.clone();
